@@ -17,7 +17,7 @@ CLAIMS = {
              "WalRotator.current_writer with possibly-unsynced appends is overwritten unless a poison flag forces the next sync() "
              "to fail (forward must-dataflow on the CFG); R09.3 sync reaches File::sync_all on the very file append writes, errors "
              "propagated; R09.4 write_durable returns only the received ack. Right level: these are pairing/ordering facts visible "
-             "in the code shape on every path, which no test schedule can enumerate.",
+             "in the code shape on every path, which no test schedule can enumerate. R09.7 in ReplicatedShardedState::execute the Always policy reaches the reply only through an awaited write_durable of the shard's delta.",
         technique="MIR dominance + forward must-dataflow (clean-writer typestate) + who-may-write field scan + call-chain check",
         ref="DESIGN.md §3 C09"),
     "C12": dict(
@@ -25,7 +25,7 @@ CLAIMS = {
              "pointer-before-delete, R12.3 atomic pointer swap (put temp -> rename, nothing in between, the live manifest key only "
              "used by get/exists/rename-destination), R12.4 a failed flush restores the taken buffer on every Err exit, R12.5 success "
              "reported only after the swap, R12.6 load/put/save failures are propagated (no fallback to a stale manifest). These are "
-             "ordering facts on every path between object-store calls - exactly the crash/fault points tests cannot enumerate.",
+             "ordering facts on every path between object-store calls - exactly the crash/fault points tests cannot enumerate. R12.7 every iteration over the taken deltas reaches SegmentWriter::write_delta with its error propagated.",
         technique="MIR dominance over awaited Result edges in pre-lowering coroutine bodies, path search for buffer restore, who-may-use field scan",
         ref="DESIGN.md §3 C12"),
     "C08": dict(
@@ -52,7 +52,7 @@ CLAIMS = {
              "consume site each path to return encodes exactly one reply, NeedMoreData consumes nothing; R04.3 discarded input is "
              "followed by an error reply; R04.4 every reply-producing site reaches write_all or the is_empty edge before the next "
              "read; R04.6 recogniser offsets equal the matched literal's length. Known findings: HEADER_LEN 14 vs 13 (x4) and the "
-             "below-threshold drop (x2, keyed by whether the recogniser is live). Does not decide reply contents.",
+             "below-threshold drop (x2, keyed by whether the recogniser is live). Does not decide reply contents. R04.4 also requires that bytes handed to the socket are cleared from write_buffer before it is reused.",
         technique="CFG path search with exempt edges (consume=>reply pairing), dominance, constant/literal agreement from evaluated MIR constants",
         ref="DESIGN.md §3 C04"),
     "C17": dict(
@@ -60,7 +60,7 @@ CLAIMS = {
              "Command::is_read_only can classify read-only dispatches only to handlers without a visible write site in their "
              "transitive closure; R17.2 in every handler (and inline dispatch arm) no error reply is reachable from a write site "
              "(fallible data-structure methods that validate before mutating are summarised); R17.4 ACL-denied/parse-error paths "
-             "never reach state.execute. Does not decide scripts nor value-correlated error->write orders.",
+             "never reach state.execute. Does not decide scripts nor value-correlated error->write orders. R17.5 a write reachable after an error reply was chosen must be excluded by the value variant the error arm rules out.",
         technique="MIR effect analysis (write-site classification by receiver provenance, transitive writer set, CFG reachability write->error), enum dispatch tables",
         ref="DESIGN.md §3 C17"),
     "C01": dict(
@@ -70,7 +70,7 @@ CLAIMS = {
              "whole-value inserts update the TTL or are in the frozen keep-TTL table behind a purge; R01.5 shrinking a stored "
              "collection is followed by an emptiness test + removal; R01.6 a create-if-absent is followed on every path by an add "
              "(per loop iteration), a removal, or the wrong-type exit; R01.7 seconds/milliseconds sibling commands have equal "
-             "decision skeletons. Does not decide equality of replies with Redis.",
+             "decision skeletons. Does not decide equality of replies with Redis. R01.8 a conditional command refuses (0/nil decided by a keyspace test) before any write.",
         technique="MIR provenance/dominance pairing rules over all executor handlers, path search with exempt edges, sibling CFG-skeleton comparison",
         ref="DESIGN.md §3 C01"),
     "C03": dict(
@@ -79,7 +79,7 @@ CLAIMS = {
              "hash_key*(served key), a direct enumerate() of the per-shard bucket vector, a bucket-map key produced by hash_key, or "
              "the key-less constant-0 fallback; R03.3 every multi-key variant (derived from Command::get_keys) has a partitioning arm "
              "(8 known findings); R03.4 keyspace-wide commands fan out (RANDOMKEY known finding); R03.6 generic dispatch sends only "
-             "timed messages with the virtual time read at entry. Does not decide reply equality.",
+             "timed messages with the virtual time read at entry. Does not decide reply equality. R03.1 also requires every routing function to hash the whole key (or the same transformation); R03.4 requires the fan-out on every path through a keyspace-wide arm.",
         technique="resolved generic-argument comparison of Hash::hash callees, index provenance analysis, enum dispatch tables derived from MIR",
         ref="DESIGN.md §3 C03"),
     "C05": dict(
@@ -87,7 +87,7 @@ CLAIMS = {
              "!in_transaction or in the EXEC arm; R05.2 EXEC/DISCARD reset all four state fields on every path; R05.3 the replay loop "
              "pushes exactly one result per queued command with no early exit; R05.4 the WATCH observer must be type-total (known "
              "finding: GET collapses non-strings); R05.5 control arms exist in both states; R05.6 WATCH only appends snapshots; R05.7 "
-             "queue-time parse errors always set the abort flag. Does not decide isolation against other connections.",
+             "queue-time parse errors always set the abort flag. Does not decide isolation against other connections. The same clauses are decided for the executor-level twin (CommandExecutor::execute queue guard, execute_exec/discard resets, replay chain, abort before replay, execute_watch append-only).",
         technique="dominance by state-test edges, path search with exempt edges per enum-dispatch arm, who-may-mutate scan of the snapshot list",
         ref="DESIGN.md §3 C05"),
     "C15": dict(
@@ -96,7 +96,7 @@ CLAIMS = {
              "before a sign-losing cast; R15.2 allocations sized by a tainted value are clamped to / bounded by the input length; "
              "R15.3 no unchecked +/* on an unbounded tainted value; R15.4 slice ranges built from tainted values are dominated by a "
              "comparison against the input length; R15.5 Incomplete-sentinel discipline incl. a completeness guard that covers "
-             "payload+CRLF; R15.6 decimal scratch buffers hold i64::MIN. Does not decide prefix-stability or round-trips by value.",
+             "payload+CRLF; R15.6 decimal scratch buffers hold i64::MIN. Does not decide prefix-stability or round-trips by value. R15.7 a hand-written signed decimal parser does not negate an accumulated magnitude (i64::MIN).  Local integer-parsing helpers count as taint sources.",
         technique="intra-procedural forward taint over MIR with root tracking and guard-based sanitisation (dominating comparisons)",
         ref="DESIGN.md §3 C15"),
     "C13": dict(
@@ -104,7 +104,7 @@ CLAIMS = {
              "(known finding: keeps newest-by-time); R13.2 no comparison mixes wall-clock and Lamport time (known finding); R13.4 "
              "manifest read-modify-write must be re-validated before save (4 known findings incl. flush); R13.5 a failed fetch or decode "
              "never schedules a segment for removal, except a fetch that failed with ErrorKind::NotFound (both former findings are fixed); R13.6 manifest entries are dropped by membership in the id "
-             "list derived from the folded segments; R13.7 tombstones are judged on the folded map only. Does not decide state equality.",
+             "list derived from the folded segments; R13.7 tombstones are judged on the folded map only. Does not decide state equality. R13.1 also requires that the fold replaces an entry only behind `key absent` or a stamp comparison; R13.8 every folded delta is written; R13.9 the selection is an oldest-first prefix of the sorted candidates.",
         technique="MIR call/provenance analysis across closure captures, wall-clock vs logical-time provenance typing, path search from failure edges",
         ref="DESIGN.md §3 C13"),
     "C11": dict(
@@ -113,7 +113,7 @@ CLAIMS = {
              "list is manifest.segments -> [filter id > checkpoint id, only with a checkpoint] -> Vec, sorted in place - any keyed or "
              "truncating step is reported; load failures and decode errors propagate; validate precedes deltas; R11.3 the plain-insert "
              "recovery message has a single caller and deltas go through the merging ingest; R11.5 WAL deltas are appended on every "
-             "path. Does not decide equality with the ground-truth merge.",
+             "path. Does not decide equality with the ground-truth merge. R11.2 also fixes the checkpoint filter to exactly `id > checkpoint id` and requires the loaded deltas of every iteration to be appended; R11.3 requires the recovered state to be handed over as received at both hops.",
         technique="value-provenance chain analysis over iterator adaptors (incl. helpers), error-propagation analysis on awaited results, who-may-call",
         ref="DESIGN.md §3 C11"),
     "C06": dict(
@@ -121,7 +121,7 @@ CLAIMS = {
              "executor's post-state (3 known findings: SET x2, HSET); R06.2 the reply of a re-materialising command that can fail (decided from its handler's error sites and the "
              "options its constructor fixes) must be inspected (5 known findings: HSET/HDEL/SETEX); R06.3 remote ingest = clock update + merge when a local value exists; R06.5 after the merge, executor updates "
              "are decided from the merged value only (no stale-delta shortcut); R06.6 stamps are never ordered by .time alone. Does not "
-             "decide convergence over delivery schedules.",
+             "decide convergence over delivery schedules. R06.3 also requires the ingest to store on every path; R06.7 every local delta reaches queue_deltas when replication is on and every iteration over a received batch forwards its delta to the owner shard.",
         technique="MIR value provenance (post-state vs command operand), unused-result detection, branch-condition root analysis, comparison-shape scan",
         ref="DESIGN.md §3 C06"),
     "C18": dict(
@@ -130,7 +130,7 @@ CLAIMS = {
              "never combined with xor/add/or; R18.2 digest coverage of ReplicatedValue fields (known finding: only stamp + LWW payload); "
              "R18.3 a sync applies A->B and B->A through apply_remote_deltas after both selections; R18.4 digest construction and "
              "selection use KeyDigest::bucket with the configured depth; R18.6 selection filters on bucket membership only. Does not "
-             "decide termination under the per-round limit.",
+             "decide termination under the per-round limit. R18.1 also applies rule H to every digest-computing function; R18.2 requires the digest to keep covering stamp and LWW payload; R18.3 forbids narrowing the selection before it is applied.",
         technique="hash-order-leak rule (unordered iteration -> order-sensitive sink needs a sort), operator-shape scan, field-coverage set comparison, provenance of sync endpoints",
         ref="DESIGN.md §3 C18"),
     "C19": dict(
@@ -151,7 +151,7 @@ CLAIMS = {
              "R20.2 every RNG is seed_from_u64(parameter); R20.3 rule H: no HashMap/HashSet iteration feeds an unsorted Vec, a shared "
              "hasher, a first-element pick or a per-element RNG draw (8 frozen, reasoned exceptions); R20.4 the event queue is a "
              "BinaryHeap ordered by virtual time. The quick tier analyses the default and the simulation-feature configuration. Does not "
-             "compare traces across processes.",
+             "compare traces across processes. R20.5 fault decisions compare the RNG draw with FaultConfig::get on the current config (or the probability parameter) only.",
         technique="call-graph reachability over resolved callees with path witnesses, dataflow from unordered iterations to order-sensitive sinks (rule H), conditional exception table",
         ref="DESIGN.md §3 C20"),
     "C02": dict(
@@ -178,7 +178,7 @@ CLAIMS = {
              "let inlining, renaming table); R16.2 the six extract_* helper pairs are equal modulo the renaming; R16.3 every Lua "
              "translator arm exists in the RESP parser, builds the same variant, normalises keyword case at the same argument positions "
              "and knows only RESP keywords (4 known findings: missing options); R16.4 RESP->Lua conversion covers all RespValue "
-             "variants. Does not decide script effect equality.",
+             "variants. Does not decide script effect equality. R16.5 the Lua translator builds SDS operands from raw bytes.",
         technique="syn AST normal-form comparison of sibling implementations (engine/synq), arm-summary comparison, enum-dispatch exhaustiveness from MIR",
         engine="synq+rules",
         ref="DESIGN.md §3 C16"),
